@@ -45,6 +45,23 @@ def make_cases(rng, tier):
                           sif(mk_ecmp("==", emath(mvar("h.I64")), emath(mint(1))), block([assign(("var", "x"), "=", ("math", mint(5)))]))], ret(emath(x())))
     add([("A", None, 9, body())], [h()], twice=True)
     add([("A", None, 9, block([assign(("var", "x"), "=", ("math", mint(3)))], ret(emath(x())))), ("B", None, 5, block([], ret(emath(x()))))], [], twice=True)
+    # OVERLAPPING executions (concurrent model, rule A held at a gate between the write and the read of its local): rule B binds
+    # the same local name meanwhile — from a struct field, a nested field, a slice element (addressable sources), a constant
+    gate = lambda: scall(call("func", "Gate", [("const", kstr("gate"))]))
+    hh = lambda: inj_struct("h", fields={"I64": tv_int("i64", 111), "I32": tv_int("i32", 7)}, sub={"N": tv_int("i64", 222)})
+    sq = lambda: inj_seq("sq", "i64", [tv_int("i64", 31), tv_int("i64", 32)], byptr=True)
+    for (srcA, srcB) in ((mvar("h.I64"), mvar("h.Sub.N")), (mvar("h.Sub.N"), mvar("h.I64")), (matom(amap(mapvar("sq", ("int", 0)))), matom(amap(mapvar("sq", ("int", 1))))),
+                         (mvar("h.I64"), mint(5)), (mint(5), mvar("h.I64"))):
+        for extra_b in (0, 1):
+            import copy
+            rb_body = [scall(call("func", "After", [("const", kstr("gate"))])), assign(("var", "v"), "=", ("math", copy.deepcopy(srcB)))]
+            if extra_b:
+                rb_body.append(assign(("var", "v"), "+=", ("math", mint(1000))))
+            c = make_multi_case(cid, [("A", None, 9, block([assign(("var", "v"), "=", ("math", copy.deepcopy(srcA))), gate()], ret(emath(mvar("v"))))),
+                                      ("B", None, 5, block(rb_body, ret(emath(mvar("v")))))], [hh(), sq(), inj_func("Gate"), inj_func("After")])
+            c["hold"], c["model"] = "gate", "concurrent"
+            cases.append(c)
+            cid += 1
     # random: several rules drawn from the statement generator, all using the local names l1..l4, i1.., k1..
     n_rand = 120 if tier == "quick" else 4000
     for _ in range(n_rand):
@@ -80,7 +97,7 @@ def pool_scenarios(rng, tier):
 
 
 RULE = ("(A) multi-rule texts run through the sort model: a local assigned by a higher-priority rule read by a later rule (must be undefined), the same local name bound to different types in different rules, read-before-write inside one rule, "
-        "injected names written by one rule and read by the next (must be shared), the same rule set executed twice on one engine (the second call must not see the first call's locals), "
+        "injected names written by one rule and read by the next (must be shared), two rules of the CONCURRENT model binding the same local name from struct fields / slice elements / constants while one of them is held at a gate between its write and its read, the same rule set executed twice on one engine (the second call must not see the first call's locals), "
         "and 120 (thorough 4000) random sets of 2-4 rules drawn from the statement generator, all using the same local names; compared inside Coq with a model that gives every rule execution an empty local map and threads only the injected objects; "
         "(B) pool scenarios in which the same rule is executed by max requests at once, every one held between the write and the read of its local, through 5 wrapper methods; each request must read back its own id; "
         "distinct non-trivial = multi-rule cases in which at least two rules use a common local name, plus pool snapshots with >= 2 requests held inside the same rule")
